@@ -1042,9 +1042,11 @@ RULES = {
            'cases (random parameters, positions incl. the reorder point itself, capacities) and serial EBS-vs-converted-BS systems (1-6 stages, SLT 0-3, OLT 0, random demand, node ids incl. 0, '
            'edges given in shuffled order so that network.nodes is not listed upstream-to-downstream); multi-product stream: per-product position with units earmarked for the other products, '
            'orders per (supplier, raw material) = NBOM x finished-goods orders, and the supplier receives them one order lead time later',
-    'C05': 'holding/stockout rates k/4, in-transit rate None/0/positive, revenue 30%; 30% of the cases carry optional holding / stockout cost functions (a x + b x^2, not clamped; cost read-out of Sim/CostFn.v + monitors) and a shipment-pausing disruption; plus run_multiple_trials re-derived trial by trial with the same seeds (Poisson / uniform demand)',
+    'C05': 'holding/stockout rates k/4, in-transit rate None/0/positive, revenue 30%; 30% of the cases carry optional holding / stockout cost functions (a x + b x^2, not clamped; cost read-out of Sim/CostFn.v + monitors) and a shipment-pausing disruption; plus run_multiple_trials re-derived trial by trial with the same seeds (Poisson / uniform demand; 2-5 trials, and 150-300 trials on 1-2-node networks, where trial seeds repeat)',
     'C06': 'default mix (25% of the networks contain node index 0); relabellings onto 100..199 or onto 0..n; rand_seed 0 in 20% of the random-demand runs; every case also run period by period (initialize/step/close), relabelled (fresh case and reindex_nodes), and with random demand / Markov disruptions '
-           '(same seed twice; realisations fed to the Coq model)'}
+           '(same seed twice; realisations fed to the Coq model); plus 15 (thorough: 150) networks renumbered AFTER the simulation (reindex_nodes on a network holding state variables; maps onto fresh indices, permutations '
+           '/ swaps / cycles of the existing indices, identity, onto 0..n-1, shift by one): every attribute of every NodeStateVars record, with its keys (nodes, products incl. dummy products, None for the external '
+           'supplier / customer), must equal that of a network built with the new indices and simulated in the same way, and the renumbered object simulated again must give that trajectory'}
 
 
 LEVELS_RULE = (' In 40% of the single-product cases (C03: 50%) nodes handle an explicit product and each attribute (lead times, cost rates and functions, revenue, capacity, '
@@ -1056,6 +1058,9 @@ LEVELS_RULE = (' In 40% of the single-product cases (C03: 50%) nodes handle an e
                'external supplier; initial orders on the product of a node with order lead time > 0; echelon base-stock policy above a node with an explicit product; and the comparison of the '
                'reported revenue with sum_k rate_k x shipments_k in periods in which a product other than the node\'s last earns revenue (only the last product\'s revenue is reported).')
 RULES = {k: v + LEVELS_RULE for k, v in RULES.items()}
+
+
+LIFE_N = (40, 400)       # lifecycle cases per (quick, thorough) run
 
 
 def monitors(pid, spec, G, total, tol=None, multi=False, cover=None, notes=None):
@@ -1076,11 +1081,12 @@ def monitors(pid, spec, G, total, tol=None, multi=False, cover=None, notes=None)
     raise ValueError(pid)
 
 
-def gen_single(pid, rng, nmax, tmax, directed=False):
+def gen_single(pid, rng, nmax, tmax, directed=False, policies=None):
     kw = {}
     if pid in ('C01', 'C02'): kw = dict(bias='SP')
     elif pid == 'C03': kw = dict(olt_max=3, bias='TP/RP')
     elif pid == 'C04': kw = dict(policies=['BS', 'sS', 'rQ', 'FQ', 'EBS'])
+    if policies: kw['policies'] = policies
     # 40% of the cases (C03: 50%): attributes specified on explicit products / per (node, product), explicit vs network-implied bills of
     # materials, nodes with predecessors AND the external supplier (simlib.gen_levels; plumbing only, the model sees the same configuration)
     c = simlib.gen_case(rng, nmax=nmax, tmax=tmax, **kw)
@@ -1161,6 +1167,230 @@ def check_single(chk, pid, case, model=None, count=True):
     if pid == 'C06' and case.get('aux'):
         c06_repro(chk, case, impl)
     return impl, cov
+
+
+# ------------------------------------------------------------------------------------------------
+# lifecycle stream: ONE network object is built, simulated, edited through the public API (attributes at the level they are given on, new
+# downstream / upstream nodes, removed nodes), possibly deep-copied, and simulated again (simulation() | initialize/step/close |
+# run_multiple_trials; same or different horizon), several times.  Every run is judged by the property's monitors with the specification
+# of the network AS IT IS AT THAT RUN, and its trajectory is compared (observables of the property; C06: every field) with the one of a
+# twin network built afresh with the same final attributes: state carried between calls on one object must not exist.
+
+LIFE_ATTRS = {'C01': ['slt', 'slt', 'dis', 'dis', 'init_ships', 'cap'], 'C02': ['dis', 'dis', 'init_il', 'demand', 'cap'], 'C03': ['slt'] * 5 + ['olt'] * 4 + ['dis', 'init_orders', 'init_ships'],
+              'C04': ['pol'] * 4 + ['cap', 'cap', 'init_il'], 'C05': ['h'] * 3 + ['ith'] * 4 + ['p', 'p', 'rev', 'rev', 'hf', 'pf'], 'C06': []}
+LIFE_RULE = (' Lifecycle stream (%d cases): a network object from the same generator is simulated, then 1-3 times edited and simulated again. Edits per stage: 0-3 of {attribute set through the public '
+             'attribute at the level it is given on - lead times, cost rates/functions, in-transit rate incl. None, revenue, capacity, initial level/orders/shipments, policy (type may change), '
+             'demand list, disruption process - weighted towards the attributes the property reads; new sink below any node (its external demand kept or dropped); new source above a source '
+             '(external supplier kept or dropped); removal of a node with one neighbour}; 15%% of the stages work on a copy.deepcopy of the simulated object; the next run uses the same horizon (60%%) '
+             'or another one, and is made by simulation() (60%%), initialize/step/close (20%%) or run_multiple_trials with 2-4 trials (20%%; the object then holds the last trial; C05: returned mean = '
+             'total/T, SEM 0 for deterministic demand). Oracles per run: the property\'s monitors with the specification of the edited network, and equality of the property\'s observables with a '
+             'freshly built twin network having the same final attributes. %s')
+
+
+def edit_class(st):
+    ks = {op[0] for op in st['ops']}
+    c = 'no-edit' if not ks else 'attributes+topology' if ('set' in ks and len(ks) > 1) else 'attributes' if ks == {'set'} else 'topology'
+    return c + ('+deepcopy' if st.get('copy') else '')
+
+
+def gen_lifecycle(pid, rng, nmax, tmax):
+    pols = ['BS', 'sS', 'rQ', 'FQ'] + (['EBS'] * 4 if pid == 'C04' else [])       # C04: echelon policies at half of the nodes, so that edited networks have echelons
+    while True:
+        c = gen_single(pid, rng, nmax, tmax, directed=True, policies=(pols if pid == 'C04' else None))
+        if not c['malformed']: break
+    c['mode'] = 'lifecycle'; c['stages'] = []
+    attrs = simlib.SET_ATTRS + LIFE_ATTRS[pid]
+    cur = c; T = c['T']
+    for k in range(rng.choice([1, 2, 2, 3])):
+        ops, cur = simlib.gen_ops(rng, cur, T, attrs, p_topology=(0.45 if pid == 'C04' else 0.2), pols=pols, olt_max=(3 if pid == 'C03' else 2), nmax=nmax + 2)
+        T = T if rng.random() < 0.6 else rng.randint(4, tmax)
+        c['stages'].append(dict(ops=ops, T=T, how=rng.choice(['simulation'] * 6 + ['steps'] * 2 + ['trials'] * 2), ntr=rng.randint(2, 4), copy=rng.random() < 0.15))
+    return c
+
+
+def lifecycle_from_json(c):
+    c = simlib.case_from_json(c)
+    for st in c['stages']: st['ops'] = simlib.ops_from_json(st['ops'])
+    return c
+
+
+def check_lifecycle(chk, pid, case):
+    """returns (number of runs judged, coverage of the re-runs)"""
+    cur = {k: v for k, v in case.items() if k != 'stages'}
+    cov = set(); runs = 0
+    def judge(live, cur, where, twin=None):
+        try:
+            spec = spec_single(cur, live['struct'])
+        except AssertionError:
+            st = live['struct']
+            _fail(chk, where + '|network-structure-differs-from-the-specified-network', 'the network object reports predecessors %s, successors %s, external supplier %s, external customer %s; after the edits it should have '
+                  'edges %s, demand at %s' % (st['preds'], st['succs'], st['ext_sup'], st['has_dem'], cur['edges'], [i for i in cur['ids'] if cur['nodes'][i]['demand'] is not None]), case)
+            return False
+        G = g_single(live['recs'])
+        for sig, what in monitors(pid, spec, G, live['total'])[:4]:
+            _fail(chk, where + '|' + sig, what, case)
+        if twin is not None:
+            same = all(twin['struct'][f] == live['struct'][f] for f in ('preds', 'succs', 'ext_sup', 'has_dem'))
+            chk.count('lifecycle:twin-compared=%s' % same)
+            if same:     # (a different service order of the same customers is a different configuration)
+                d = simlib.compare(live, twin, fields=FIELDS[pid])
+                if d:
+                    _fail(chk, where + '|differs-from-freshly-built-network|%s' % str(d[0][2]).split('[')[0], '%d observable(s) of %s differ from those of a network built afresh with the same attributes; '
+                          'first (period, node, field, re-used object, fresh network) = %s' % (len(d), pid, jsonable(d[0])), case)
+        c2 = coverage(spec, G)
+        return c2
+    try:
+        live = simlib.run_impl(cur)
+    except Exception as e:
+        _fail(chk, 'raises-%s' % exc_kind(e), 'simulation() raises %s: %s' % (type(e).__name__, str(e)[:300]), case); return 0, cov
+    if judge(live, cur, 'first-run') is False: return 0, cov
+    net = live['net']
+    for k, st in enumerate(case['stages'], 1):
+        ec = edit_class(st); where = 're-used-network-object|after-%s' % ec
+        sameT = st['T'] == cur['T']
+        try:
+            if st.get('copy'): net = copy.deepcopy(net)
+            nxt = simlib.apply_ops_net(net, cur, st['ops']); nxt['T'] = st['T']
+            live = simlib.run_live(net, st['T'], st['how'], st['ntr'], seed=k + 1)
+        except Exception as e:
+            _fail(chk, where + '|raises-%s' % exc_kind(e), 'stage %d (%s, edits %s, horizon %d): %s: %s' % (k, st['how'], jsonable(st['ops']), st['T'], type(e).__name__, str(e)[:300]), case)
+            return runs, cov
+        cur = nxt
+        try:
+            twin = simlib.run_impl(cur)
+        except Exception as e:
+            _fail(chk, 'raises-%s' % exc_kind(e), 'simulation() of the freshly built network of stage %d raises %s: %s' % (k, type(e).__name__, str(e)[:300]), case)
+            return runs, cov
+        c2 = judge(live, cur, where, twin)
+        if c2 is False: return runs, cov
+        runs += 1; cov |= c2
+        if pid == 'C05' and st['how'] == 'trials':
+            want = float(twin['total'] / st['T'])
+            if not close(live['mean'], want):
+                chk.fail('run_multiple_trials|mean|deterministic-demand', 'stage %d: %d trials of %d periods with deterministic demand: returned mean %r but every trial costs %r per period' % (k, st['ntr'], st['T'], live['mean'], want), case)
+            if not close(live['sem'], 0.0, abs_=1e-9 * max(1.0, abs(want))):
+                chk.fail('run_multiple_trials|sem|deterministic-demand', 'stage %d: %d identical trials: returned SEM %r, expected 0' % (k, st['ntr'], live['sem']), case)
+        chk.count('lifecycle:edits=%s' % ec); chk.count('lifecycle:run-by=%s' % st['how']); chk.count('lifecycle:same-horizon=%s' % sameT)
+        for op in st['ops']: chk.count('lifecycle:edit:%s' % (op[0] if op[0] != 'set' else 'set-' + op[2]))
+        if pid == 'C04':
+            spec = spec_single(cur, live['struct'])
+            new = [op[2] for op in st['ops'] if op[0] == 'add-sink']
+            if any(spec['nodes'][n]['pol'][n][0] == 'EBS' and any(j in descendants(spec, n) and n not in spec['nodes'][j]['preds'] for j in new) for n in spec['nodes']):
+                chk.count('lifecycle:new-node-two-or-more-stages-below-an-echelon-policy')
+    return runs, cov
+
+
+def fork_rng(chk, name):
+    """a generator for an added stream, derived from the current state of chk.rng WITHOUT advancing it: the streams that existed before
+    keep generating exactly the cases they generated before the stream was added"""
+    import random, hashlib
+    return random.Random('%s|%s' % (name, hashlib.sha256(repr(chk.rng.getstate()).encode()).hexdigest()))
+
+
+def lifecycle_stream(chk, pid, n):
+    t0 = time.time(); rng = fork_rng(chk, 'lifecycle')
+    for _ in range(n):
+        c = gen_lifecycle(pid, rng, 5, 12)
+        c = lifecycle_from_json(json.loads(json.dumps(jsonable(c))))       # what a replay will see
+        runs, cov = check_lifecycle(chk, pid, c)
+        chk.count('stream=lifecycle'); chk.count('lifecycle:stages=%d' % len(c['stages']))
+        chk.case(c, runs > 0 and 'BO>0' in cov and 'pipeline>0' in cov, simlib.case_key(c) + json.dumps(jsonable(c['stages']), sort_keys=True))
+    chk.extra['lifecycle_cases'] = chk.extra.get('lifecycle_cases', 0) + n
+    chk.extra['lifecycle_seconds'] = round(chk.extra.get('lifecycle_seconds', 0) + time.time() - t0, 1)
+
+
+# ------------------------------------------------------------------------------------------------
+# C06: renumbering AFTER the simulation (network.reindex_nodes on a network that holds state variables) = renumbering before it
+
+def sv_diff(a, b, path=''):
+    """first difference between two state-variable values (nested dicts with their keys as they are, pipelines, numbers), or None"""
+    if isinstance(a, dict) and isinstance(b, dict):
+        if set(a) != set(b):
+            return '%s: keys %s, expected keys %s' % (path, sorted(a, key=str), sorted(b, key=str))
+        for k in a:
+            d = sv_diff(a[k], b[k], '%s[%r]' % (path, k))
+            if d: return d
+        return None
+    if isinstance(a, (list, tuple)) and isinstance(b, (list, tuple)):
+        if len(a) != len(b): return '%s: %r, expected %r' % (path, list(a), list(b))
+        for j, (x, y) in enumerate(zip(a, b)):
+            d = sv_diff(x, y, '%s[%d]' % (path, j))
+            if d: return d
+        return None
+    if isinstance(a, (dict, list, tuple)) or isinstance(b, (dict, list, tuple)) or a != b:
+        return '%s = %r, expected %r' % (path, a, b)
+    return None
+
+
+def gen_index_map(rng, ids):
+    """old index -> new index: onto fresh indices, a permutation of the existing indices (swap, cycle, shuffle), the identity, onto 0..n-1, or a
+    shift by one (image and domain overlap without being equal)"""
+    n = len(ids)
+    kind = rng.choice(['fresh', 'permutation', 'permutation', 'swap', 'cycle', 'identity', 'onto-0..n-1', 'shift-by-one'])
+    if kind == 'fresh': new = rng.sample(range(100, 200), n)
+    elif kind == 'permutation': new = list(ids); rng.shuffle(new)
+    elif kind == 'swap':
+        new = list(ids)
+        if n > 1:
+            a, b = rng.sample(range(n), 2); new[a], new[b] = new[b], new[a]
+    elif kind == 'cycle':
+        order = list(range(n)); rng.shuffle(order); new = [None] * n
+        for a, b in zip(order, order[1:] + order[:1]): new[a] = ids[b]
+    elif kind == 'identity': new = list(ids)
+    elif kind == 'onto-0..n-1': new = rng.sample(range(n), n)
+    else: new = [i + 1 for i in ids]
+    return kind, {str(i): k for i, k in zip(ids, new)}
+
+
+def check_reindex(chk, case):
+    import stockpyl.sim as sim
+    mp = {int(k): v for k, v in case['aux']['mp'].items()}; T = case['T']; kind = case['aux']['kind']
+    overlap = 'identity' if all(k == v for k, v in mp.items()) else 'image-overlaps-domain' if set(mp.values()) & set(mp) else 'fresh-indices'
+    try:
+        a = simlib.run_impl(case); net = a['net']
+        b = simlib.run_impl(relabel_case(case, mp))
+    except Exception as e:
+        _fail(chk, 'raises-%s' % exc_kind(e), 'simulation() raises %s: %s' % (type(e).__name__, str(e)[:300]), case); return
+    try:
+        net.reindex_nodes(dict(mp))
+    except Exception as e:
+        chk.fail('reindex_nodes|after-simulation|%s|raises-%s' % (overlap, exc_kind(e)), 'reindex_nodes(%s) on a simulated network raises %s: %s' % (mp, type(e).__name__, str(e)[:300]), case); return
+    try:
+        for i in case['ids']:
+            n1 = net.nodes_by_index[mp[i]]; n2 = b['net'].nodes_by_index[mp[i]]
+            if n1 is None or len(n1.state_vars) != len(n2.state_vars):
+                chk.fail('reindex_nodes|after-simulation|%s|state-variables-not-renamed' % overlap, 'reindex_nodes(%s): node %s -> %s has %s state-variable records, a network built with the new indices has %d'
+                         % (mp, i, mp[i], None if n1 is None else len(n1.state_vars), len(n2.state_vars)), case); return
+            for t, (x, y) in enumerate(zip(n1.state_vars, n2.state_vars)):
+                vx = {k: v for k, v in vars(x).items() if k != 'node'}; vy = {k: v for k, v in vars(y).items() if k != 'node'}
+                d = sv_diff(vx, vy)
+                if d is None and x.node is not n1: d = '.node is not the node that holds the record'
+                if d:
+                    chk.fail('reindex_nodes|after-simulation|%s|state-variables-not-renamed' % overlap, 'simulation(); reindex_nodes(%s): state_vars[%d] of node %s (was %s) differs from the one of a network built with the new '
+                             'indices and simulated in the same way: %s' % (mp, t, mp[i], i, d), case); return
+        # ... and the renumbered object keeps working: simulated again, it gives the trajectory of the network built with the new indices
+        with warnings.catch_warnings():
+            warnings.simplefilter('ignore')
+            tot = sim.simulation(net, T, rand_seed=1, progress_bar=False, consistency_checks='N')
+        d = simlib.compare(dict(recs=simlib.extract_records(net, T), total=F(tot)), b)
+        if d:
+            chk.fail('reindex_nodes|after-simulation|%s|simulated-again' % overlap, 'simulation(); reindex_nodes(%s); simulation(): %d field(s) differ from the trajectory of a network built with the new indices, first (period, node, field, renumbered, fresh) = %s'
+                     % (mp, len(d), jsonable(d[0])), case)
+    except Exception as e:
+        chk.fail('reindex_nodes|after-simulation|%s|raises-%s' % (overlap, exc_kind(e)), 'reading / re-simulating the network renumbered by reindex_nodes(%s) raises %s: %s' % (mp, type(e).__name__, str(e)[:300]), case)
+    return overlap
+
+
+def reindex_stream(chk, n):
+    rng = fork_rng(chk, 'reindex')
+    for _ in range(n):
+        c = gen_single('C06', rng, 5, 12, directed=True)
+        c['mode'] = 'reindex'
+        kind, mp = gen_index_map(rng, c['ids']); c['aux'] = dict(kind=kind, mp=mp)
+        c = simlib.case_from_json(json.loads(json.dumps(jsonable(c))))
+        ov = check_reindex(chk, c)
+        chk.count('stream=reindex-after-simulation'); chk.count('reindex-after-simulation:map=%s' % kind); chk.count('reindex-after-simulation:%s' % ov)
+        chk.case(c, len(c['ids']) > 1 and kind != 'identity', simlib.case_key(c) + json.dumps(c['aux'], sort_keys=True))
 
 
 def check_override(chk, pid, case):
@@ -1362,6 +1592,8 @@ def explore(chk, pid, n, n_multi=0, do_model=True):
             c['overrides'] = {str(t): {str(i): rng.choice([0, 1, 2, 5, 9]) for i in rng.sample(c['ids'], rng.randint(1, len(c['ids'])))} for t in range(c['T']) if rng.random() < 0.5}
             check_override(chk, pid, c)
             chk.count('stream=order_quantity_override'); chk.case(c, bool(c['overrides']))
+    lifecycle_stream(chk, pid, (LIFE_N[0] if chk.tier == 'quick' else LIFE_N[1]) * (1 if do_model else 3))
+    if pid == 'C06': reindex_stream(chk, (15 if chk.tier == 'quick' else 150) * (1 if do_model else 3))
     if n_multi and pid in MULTI_PROPS:
         nm = 0; m2items = []
         for j in range(n_multi):
@@ -1397,6 +1629,8 @@ def run_property(chk, pid, n_quick=200, n_thorough=2000, m_quick=40, m_thorough=
                    (' Stage 2 (ORACLE ONLY, not covered by the Coq model or the theorems): %d multi-product networks (2-3 levels, 1-3 products per node, BOM numbers 1..3, shared raw '
                     'materials, twin suppliers) checked with the per-(node,product)/(edge,raw material) monitors at relative tolerance 1e-9.' % (m_quick if chk.tier == 'quick' else m_thorough))
                    if pid in MULTI_PROPS else ''))
+    chk.rule += LIFE_RULE % (LIFE_N[0] if chk.tier == 'quick' else LIFE_N[1],
+                             'Attribute edits drawn twice as often from %s.%s' % (sorted(set(LIFE_ATTRS[pid])) or 'the whole list', ' Echelon base-stock policies at half of the nodes and in the added nodes, 45% topology edits.' if pid == 'C04' else ''))
     chk.trusted += ['model Sim/Model.v is hand-written; tied to /repo by exact comparison of the observables of %s (%s) on every generated single-product case'
                     % (pid, 'every extracted field' if FIELDS[pid] is None else ', '.join(FIELDS[pid])),
                     'property monitors py/simmon.py (independent re-computation from the public state variables in exact rationals)']
@@ -1427,6 +1661,10 @@ def replay_property(chk, pid, rp, extra_replay=None):
                       % (d[0][0], d[0][1], d[0][2], jsonable(d[0][3]), jsonable(d[0][4]), len(d)), c)
     elif mode == 'override':
         check_override(chk, pid, simlib.case_from_json(c))
+    elif mode == 'lifecycle':
+        check_lifecycle(chk, pid, lifecycle_from_json(c))
+    elif mode == 'reindex':
+        check_reindex(chk, simlib.case_from_json(c))
     elif mode == 'multi':
         check_multi(chk, pid, multi_from_json(c))
     elif mode == 'probe':
